@@ -27,10 +27,10 @@ TABLE = {
     "gscon": {"norm.bad": 1, "L.nonsquare": 2, "L.stype": 2, "L.dtype": 2, "U.nonsquare": 3, "U.mtype": 3, "U.stype": 3},
     "gsequ": {"A.stype_nr": 1, "A.dtype": 1, "A.mtype": 1},
     "sp_trsv": {"uplo.bad": 1, "tr.bad": 2, "diag.bad": 3, "L.nonsquare": 4, "U.nonsquare": 5},
-    "sp_gemv": {"tr.bad": 1, "A.negdim": 3, "incx.zero": 5, "incy.zero": 8},
+    "sp_gemv": {"tr.bad": 1, "A.negdim": 3, "A.negcol": 3, "A.negrow": 3, "incx.zero": 5, "incy.zero": 8},
 }
 CONFLICT = [("RC.nonpos", "R.nonpos"), ("RC.nonpos", "C.nonpos"), ("RC.nonpos", "equed.bad"), ("RC.nonpos", "opt.fact"), ("equed.bad", "R.nonpos"), ("equed.bad", "C.nonpos"), ("R.nonpos", "C.nonpos"), ("opt.fact", "equed.bad"), ("opt.fact", "R.nonpos"), ("opt.fact", "C.nonpos"),
-            ("A.nonsquare", "A.negdim"), ("B.negcol", "X.ncol")]
+            ("A.nonsquare", "A.negdim"), ("B.negcol", "X.ncol"), ("A.negdim", "A.negcol"), ("A.negdim", "A.negrow"), ("A.negcol", "A.negrow")]
 
 
 @st.composite
@@ -45,7 +45,11 @@ def c15_case(draw):
         if v2 != v1 and (v1, v2) not in CONFLICT and (v2, v1) not in CONFLICT and v1.split(".")[0] != v2.split(".")[0]:
             viols.append(v2)
     s = case["set"]; s["via"] = "gstrf"; s["u"] = 1.0; s["P"] = 1; s["sched"] = "none"
-    s["routine"] = routine; s["viol"] = ",".join(viols); s["expect"] = min(tab[v] for v in viols)
+    expect = min(tab[v] for v in viols)
+    # an empty but legal problem (no right-hand sides) around the violation: the argument tests come before any quick return
+    if routine in ("gsrfs", "gstrs", "gssvx") and not any(v in ("B.negcol", "X.ncol") for v in viols) and draw(st.integers(0, 3)) == 0:
+        viols = ["nrhs.zero"] + viols
+    s["routine"] = routine; s["viol"] = ",".join(viols); s["expect"] = expect
     case["routine"] = routine; case["viols"] = viols
     return case
 
